@@ -26,13 +26,16 @@ func conflictCount(stdout string) string {
 }
 
 type c11Job struct {
-	gi, fi int
-	spec   engine.Spec
-	kind   string // reference | real | plan
-	res    *engine.Result
-	label  string
-	second *engine.Result // for "rerun" jobs: result of the second run over the first's output
-	rerun  bool
+	gi, fi  int
+	spec    engine.Spec
+	kind    string // reference | real | plan
+	res     *engine.Result
+	label   string
+	second  *engine.Result // for "rerun" jobs: result of the second run over the first's output
+	rerun   bool
+	diff    string // comparison with the reference, computed as soon as the run ends (file contents are then dropped)
+	diff2   string
+	goFiles int
 }
 
 type c11Replay struct {
@@ -237,6 +240,9 @@ func RunC11(c *Ctx) error {
 			return err
 		}
 		j.res = r
+		j.diff = c11Compare(cfgs[j.fi].ref, r)
+		j.goFiles = len(r.GoFiles())
+		r.Files = nil
 		if j.rerun {
 			s2 := j.spec
 			s2.Pre = "keep"
@@ -250,6 +256,8 @@ func RunC11(c *Ctx) error {
 				return err
 			}
 			j.second = r2
+			j.diff2 = c11Compare(cfgs[j.fi].ref, r2)
+			r2.Files = nil
 		}
 		return nil
 	})
@@ -261,9 +269,10 @@ func RunC11(c *Ctx) error {
 	// re-validates fidelity).  Always run: it is the only coverage of sources the
 	// census cannot put behind a seam.
 	type obs struct {
-		ci  int
-		mp  int
-		res *engine.Result
+		ci   int
+		mp   int
+		res  *engine.Result
+		diff string
 	}
 	var obsJobs []*obs
 	reps := 1
@@ -290,6 +299,8 @@ func RunC11(c *Ctx) error {
 			return err
 		}
 		o.res = r
+		o.diff = c11Compare(cf.ref, r)
+		r.Files = nil
 		return nil
 	})
 	if err != nil {
@@ -376,15 +387,15 @@ func RunC11(c *Ctx) error {
 			distinct[j.spec.GrammarID+"|"+strings.Join(j.spec.Flags, ",")+"|"+j.res.PermHash] = true
 		}
 		if len(samples) < 4 && nontrivial && (len(samples) == 0 || j.label != "reverse") {
-			samples = append(samples, map[string]interface{}{"grammar": j.spec.GrammarID, "flags": j.spec.Flags, "plan": j.spec.Plan, "gomaxprocs": j.spec.GOMAXPROCS, "permuted_sites": len(j.res.Sites), "go_files": len(j.res.GoFiles()), "exit": j.res.Exit})
+			samples = append(samples, map[string]interface{}{"grammar": j.spec.GrammarID, "flags": j.spec.Flags, "plan": j.spec.Plan, "gomaxprocs": j.spec.GOMAXPROCS, "permuted_sites": len(j.res.Sites), "go_files": j.goFiles, "exit": j.res.Exit})
 		}
-		if d := c11Compare(cf.ref, j.res); d != "" {
-			c11Report(c, g, workers[0], j, cf.ref, d, false)
+		if j.diff != "" {
+			c11Report(c, g, workers[0], j, cf.ref, j.diff, false)
 		}
 		if j.second != nil {
 			evals++
-			if d := c11Compare(cf.ref, j.second); d != "" {
-				c11Report(c, g, workers[0], j, cf.ref, "second run in the same directory: "+d, true)
+			if j.diff2 != "" {
+				c11Report(c, g, workers[0], j, cf.ref, "second run in the same directory: "+j.diff2, true)
 			}
 		}
 	}
@@ -392,7 +403,7 @@ func RunC11(c *Ctx) error {
 	for _, o := range obsJobs {
 		cf := cfgs[o.ci]
 		obsRuns++
-		if d := c11Compare(cf.ref, o.res); d != "" {
+		if d := o.diff; d != "" {
 			gc := cases[cf.gi]
 			spec := engine.Spec{GrammarID: gc.ID, GrammarText: gc.Text, GrammarFile: gc.File, Flags: cf.flags, GOMAXPROCS: o.mp}
 			c.Report(&Violation{Class: "real-binary-rerun-differs", Key: map[string]string{"grammar": gc.ID},
